@@ -170,6 +170,11 @@ func runQueue(kv map[string]string) string {
 	useFile := kv["sink"] == "file"
 	failAfter := atoi(kv["fail"])
 	n := g * k
+	if agg == "phout" && (late || failAfter > 0) && q < n {
+		// after phout's Run has returned (cancel seen / write error) nobody empties its queue: a reporter blocked on a
+		// full queue would stay blocked for ever; such inputs say nothing about the property
+		return "inconclusive=phout-needs-queue-for-all"
+	}
 
 	var run func(ctx context.Context) error
 	var report func(gi, ki int)
